@@ -19,6 +19,7 @@ mod c18;
 mod lall;
 mod cfggen;
 mod c12;
+mod c16;
 
 use std::io::{BufRead, Write};
 
@@ -37,6 +38,7 @@ fn main() {
             let out = std::io::stdout();
             let mut out = std::io::BufWriter::new(out.lock());
             let lines = match prop {
+                "C16" => c16::gen(tier, seed),
                 "C12" => c12::gen(tier, seed),
                 "C10" => c10::gen(tier, seed),
                 "C13" => c13::gen(tier, seed),
@@ -71,6 +73,7 @@ fn main() {
                 let l2 = line.clone();
                 let p = prop.to_string();
                 let res = std::panic::catch_unwind(move || match p.as_str() {
+                    "C16" => c16::eval(&l2),
                     "C12" => c12::eval(&l2),
                     "C10" => c10::eval(&l2),
                     "KALL" | "C01" | "C02" | "C07" | "C14" | "C18" => kan::eval(&l2),
